@@ -12,10 +12,10 @@ pub fn prop() -> Prop {
     Prop {
         id: "C19",
         level: "model_checking",
-        rule: "integers: 0, +-1, 2^k-1, 2^k, 2^k+1 for k=1..64 (both signs, clipped to [-2^63, 2^64)), 2^53+-{0,1,2}, the four range ends (~390 values), each through 10 pipeline routes (pass-through, select, sort, unique incl. neighbour pairs n/n+1, group-by, merge, split-by) and 30 non-arithmetic function routes; decimal strings: mantissas {0..12, 99, 100, 999, 10^k, 10^k-1 for k in 17..60, long digit runs} x scale {0,1,2,17,40} x exponent {none,0,+-1,+-100} x sign x spellings (leading/trailing zeros, e/E, +): all pairs over 120 (thorough 400) strings x \"+\" \"-\" \"*\" and six comparisons, plus abs, unary minus, || (value preserving, idempotent, canonical) on every string and 3-ary sums/products on a subset; non-trivial = |n| > 2^53 or a string with >= 17 digits or an exponent; distinct by construction",
+        rule: "integers: 0, +-1, 2^k-1, 2^k, 2^k+1 for k=1..64 (both signs, clipped to [-2^63, 2^64)), 2^53+-{0,1,2}, the four range ends (~390 values), each through 10 pipeline routes (pass-through, select, sort, unique incl. neighbour pairs n/n+1, group-by, merge, split-by) and 30 non-arithmetic function routes; decimal strings: mantissas {0..12, 99, 100, 999, 10^k, 10^k-1 for k in 17..60, long digit runs} x scale {0,1,2,17,40} x exponent {none,0,+-1,+-100} x sign x spellings (leading/trailing zeros, e/E, +): all pairs over 120 (thorough 400) strings x \"+\" \"-\" \"*\" and six comparisons, plus abs, unary minus, || (value preserving, idempotent, canonical) on every string and 3-ary sums/products on a subset; non-trivial = |n| > 2^53 or a string with >= 17 digits or an exponent; distinct by construction; every integer also written on the command line (--set variable, --set macro, literal selection, literal inside --filter, inside a container literal); the ordering function of the number-as-string group (\"sort_by\" and an alias) over ~2n windows of 4-5 strings plus the whole list both ways, with one item lacking the key, x 8 key forms (member, parent via ^, --set variable, --set macro, set variable, defined macro, the strings themselves), compared with the stable order by exact value",
         explanation: "integers are compared digit for digit (exact i128 on both sides after the strict reader); nas results are parsed as exact decimals and compared as rationals with num-bigint arithmetic, so the check does not depend on how jawk spells the result",
         assumptions: a,
-        guards: vec!["above-2^53", "u64-max", "i64-min", "neighbours-stay-distinct", "long-mantissa", "big-exponent", "spelling-variant"],
+        guards: vec!["integer-on-the-command-line", "nas-sort-reorders", "nas-sort-ties", "above-2^53", "u64-max", "i64-min", "neighbours-stay-distinct", "long-mantissa", "big-exponent", "spelling-variant"],
         budget_s: (100, 2400),
         single_worker: false,
         run,
@@ -160,6 +160,16 @@ fn integers(ctx: &mut Ctx) {
         expect_rows(ctx, &Case::owned(vec!["--merge".into()], inp(format!("{d} {d}"))), "merge", n, vec![V::Arr(vec![v.clone(), v.clone()])]);
         expect_rows(ctx, &Case::owned(vec!["--split-by=.".into()], inp(format!("[{d}, {{\"a\":{d}}}]"))), "split-by", n, vec![v.clone(), V::Obj(vec![("a".into(), v.clone())])]);
         expect_rows(ctx, &Case::owned(vec!["--style=pretty".into()], inp(format!("[{d}]"))), "pretty", n, vec![V::Arr(vec![v.clone()])]);
+        // the integer written on the command line: as a variable, a macro, a literal selection, inside a filter
+        ctx.guard("integer-on-the-command-line");
+        expect_rows(
+            ctx,
+            &Case::owned(vec![format!("--set=n={d}"), format!("--set=@m={d}"), "--select=:n=var".into(), "--select=@m=mac".into(), format!("--select={d}=lit"), "--select=(= :n .)=same".into(), format!("--filter=(= . {d})")], inp(d.clone())),
+            "command-line-literals",
+            n,
+            vec![V::Obj(vec![("var".into(), v.clone()), ("mac".into(), v.clone()), ("lit".into(), v.clone()), ("same".into(), V::Bool(true))])],
+        );
+        expect_rows(ctx, &Case::owned(vec![format!("--set=n=[{d}, {{\"a\": {d}}}]"), "--select=(get :n 0)=a".into(), "--select=(get (get :n 1) \"a\")=b".into()], inp("null".to_string())), "command-line-literal-in-container", n, vec![V::Obj(vec![("a".into(), v.clone()), ("b".into(), v.clone())])]);
         // neighbours n, n+1 stay distinct and exact through sort / unique / merge
         if n + 1 <= U_MAX {
             ctx.guard("neighbours-stay-distinct");
@@ -416,7 +426,79 @@ fn nas(ctx: &mut Ctx) {
     ctx.level_done("nas:all-pairs");
 }
 
+/// the ordering member of the comparison group: ("sort_by" list key) orders by the exact value of the keys, stably,
+/// items without a key first; the key is an expression like any other (it may read ^, variables and macros)
+fn nas_sort(ctx: &mut Ctx) {
+    let strs = nas_strings(ctx.tier);
+    let decs: Vec<Dec> = strs.iter().map(|s| Dec::parse(s).unwrap()).collect();
+    let n = strs.len();
+    let mut lists: Vec<Vec<usize>> = Vec::new();
+    for start in 0..n {
+        lists.push((0..5).map(|k| (start + k * 7) % n).collect());
+        lists.push((0..4).map(|k| (start + n - k) % n).collect());
+    }
+    lists.push((0..n).collect());
+    lists.push((0..n).rev().collect());
+    let keys: [(&str, &str); 8] = [
+        ("item-member", "(\"sort_by\" .items .v)"),
+        ("alias-order_by_nas", "(order_by_nas .items .v)"),
+        ("key-reads-parent", "(\"sort_by\" .items (\"+\" .v ^.off))"),
+        ("key-reads-cli-variable", "(\"sort_by\" .items (\"*\" .v :unit))"),
+        ("key-is-cli-macro", "(\"sort_by\" .items @key)"),
+        ("key-reads-set-variable", "(set \"u\" \"1\" (\"sort_by\" .items (\"*\" .v :u)))"),
+        ("key-is-defined-macro", "(define \"k\" (\"-\" .v ^.off) (\"sort_by\" .items @k))"),
+        ("strings-themselves", "(map (\"sort_by\" (map .items .v) .) (stringify .))"),
+    ];
+    for (li, list) in lists.iter().enumerate() {
+        if !ctx.mine() {
+            continue;
+        }
+        // one item without a key in the middle
+        let mut items: Vec<V> = Vec::new();
+        for (pos, si) in list.iter().enumerate() {
+            if pos == list.len() / 2 {
+                items.push(V::Obj(vec![("i".into(), V::int(-1))]));
+            }
+            items.push(V::Obj(vec![("i".into(), V::int(pos as i128)), ("v".into(), V::s(&strs[*si]))]));
+        }
+        let mut order: Vec<usize> = (0..list.len()).collect();
+        order.sort_by(|a, b| decs[list[*a]].cmp(&decs[list[*b]]));
+        if order.windows(2).any(|w| w[0] > w[1]) {
+            ctx.guard("nas-sort-reorders");
+        }
+        if order.windows(2).any(|w| decs[list[w[0]]].eq(&decs[list[w[1]]])) {
+            ctx.guard("nas-sort-ties");
+        }
+        let mut want_items: Vec<V> = vec![V::Obj(vec![("i".into(), V::int(-1))])];
+        want_items.extend(order.iter().map(|p| V::Obj(vec![("i".into(), V::int(*p as i128)), ("v".into(), V::s(&strs[list[*p]]))])));
+        let want_strs: Vec<V> = order.iter().map(|p| V::s(&to_text(&V::s(&strs[list[*p]])))).collect();
+        let mut args: Vec<String> = vec!["--set=unit=\"1\"".into(), "--set=@key=.v".into()];
+        for (k, (_, e)) in keys.iter().enumerate() {
+            args.push(format!("--select={e}=k{k}"));
+        }
+        let input = to_text(&V::Obj(vec![("off".into(), V::s("0")), ("items".into(), V::Arr(items))]));
+        let case = Case::owned(args, input.into_bytes());
+        let o = ctx.run(&case);
+        ctx.case_done();
+        ctx.trace_validated();
+        ctx.nontrivial();
+        ctx.transition(&("nas-sort", li.min(40)));
+        let row = json::parse_rows(&o.stdout, b"\n").ok().and_then(|r| r.into_iter().next()).unwrap_or(V::Null);
+        for (k, (kname, e)) in keys.iter().enumerate() {
+            let want = if *kname == "strings-themselves" { V::Arr(want_strs.clone()) } else { V::Arr(want_items.clone()) };
+            if sget(&row, &format!("k{k}")) != Some(&want) {
+                ctx.outcome("nas-wrong");
+                ctx.violation("nas-sort-not-by-exact-value", &format!("{kname}: {e}"), &[case.clone()], crate::drive::trunc(&to_text(&want), 300), format!("{:?} ({})", sget(&row, &format!("k{k}")).map(|v| crate::drive::trunc(&to_text(v), 300)), o.res.short()));
+                break;
+            }
+        }
+        ctx.outcome("nas-exact");
+    }
+    ctx.level_done("nas:sort_by-over-windows-of-the-strings-x-8-key-forms");
+}
+
 fn run(ctx: &mut Ctx) {
     integers(ctx);
     nas(ctx);
+    nas_sort(ctx);
 }
